@@ -92,6 +92,11 @@ def main():
         inv_covers = False
     else:
         raise TranslateError(f"unexpected_token: INVALID_UTF8 span expression not understood: {sp}")
+    # optional: an empty prefix is replaced by the first character of the valid chunk
+    cm = re.search(r"let unexpected = if unexpected\.is_empty\(\) \{ let first = chunk\.valid\(\)\.chars\(\)\.next\(\)\.map_or\(0, char::len_utf8\); &chunk\.valid\(\)\[\.\.first\] \} else \{ unexpected \};", u)
+    if "unexpected.is_empty()" in u and not cm:
+        raise TranslateError("unexpected_token: handling of an empty prefix not understood")
+    covers_ws = bool(cm)
     bm = re.search(r"lexer\.bump\((.*?)\);", u)
     if bm and bm.group(1) == "unexpected.len().saturating_sub(lexer.span().len())":
         bumps = True
@@ -118,7 +123,7 @@ From YV Require Import Parser.Tokenizer Gen.Grammar.
    unexpected_token: INVALID_UTF8 = {sp.split(' .offset')[0]};
    UNKNOWN = valid prefix up to the first whitespace, lexer.bump({'saturating_sub' if bumps else 'none'}). *)
 Definition yara_tcfg : tcfg :=
-  mkTcfg {b(err_at_start)} {b(enter_at_end)} {b(inv_covers)} {b(bumps)} T.INVALID_UTF8 T.UNKNOWN.
+  mkTcfg {b(err_at_start)} {b(enter_at_end)} {b(inv_covers)} {b(bumps)} {b(covers_ws)} T.INVALID_UTF8 T.UNKNOWN.
 """
     write_if_changed("TokenizerGen.v", text)
 
